@@ -248,8 +248,30 @@ func verifC04(n, t, n2, t2, mode int) {
 		}
 		drain()
 		collect()
+		if verifC04WaitingFor && !d.toOld && newSaves[d.idx] == nil {
+			// C08: an old member from which nothing is missing any more (all three of its messages
+			// to this new member are stored) is not reported as awaited
+			lp := newP[d.idx].(*LocalParty)
+			wf := newP[d.idx].WaitingFor()
+			for j := 0; j < n; j++ {
+				if lp.temp.dgRound1Messages[j] == nil || lp.temp.dgRound3Message1s[j] == nil || lp.temp.dgRound3Message2s[j] == nil {
+					continue
+				}
+				awaited := false
+				for _, w := range wf {
+					if w.KeyInt().Cmp(oldKeys[j]) == 0 {
+						awaited = true
+					}
+				}
+				v.Observe("waitingfor-excludes-old-member-with-nothing-missing", !awaited)
+				verifC04WFChecks++
+			}
+		}
 	}
 	collect()
+	if verifC04WaitingFor {
+		v.Assert("waitingfor-probes-were-made", verifC04WFChecks > 0)
+	}
 	if verifC04Adv >= 0 {
 		v.Assert("forgery-was-delivered", forged)
 		v.Assert("wrong-share-detected-by-the-victim", detected)
@@ -316,6 +338,16 @@ func VerifHarness_C04_eddsa_reshare_3of3_to_2of2_fifo() { verifC04(3, 2, 2, 1, n
 // detect it and blame exactly that old member; nobody emits new key material and no old
 // share is erased.
 var verifC04Adv = -1
+
+// C08 for resharing: WaitingFor() of a new member, after every delivery, under LIFO delivery
+// (the last sender's messages arrive first)
+var verifC04WaitingFor = false
+var verifC04WFChecks = 0
+
+func VerifHarness_C08_eddsa_reshare_3to3_lifo_waitingfor() {
+	verifC04WaitingFor = true
+	verifC04(3, 1, 3, 2, net.LIFO)
+}
 
 // C07 for resharing: new member verifC04Late calls Start() only after every old member's
 // round-1 message has been delivered to it (messages delivered before the local Start call);
